@@ -145,6 +145,48 @@ def opTree (j : Json) : Except String Json := do
   pure (Json.mkObj [("F", jnat S.F), ("tree", jlist jopt r.edgesIn), ("plaq_in", jnats r.plaqIn),
                     ("flipped", Json.arr res.toArray)])
 
+
+/-! ### C06: flux-sector solver -/
+
+def parseStep (j : Json) : Except String (Nat × Nat × List Nat × List Nat) := do
+  pure (← nat (← field j "a"), ← nat (← field j "b"), ← nats (← field j "nodes"), ← nats (← field j "edges"))
+
+def opSolve (j : Json) : Except String Json := do
+  let L ← parseLat j
+  if !L.noSelfLoop then throw "precondition:self-loop"
+  let R := rotOfTable (rotTable L)
+  if anyStuck L R then throw "stuck"
+  let ps := (plaquettes L R).map (·.darts)
+  let S0 := Tree.sysOf ps
+  let sidesArr := ((List.range L.E).map S0.sides).toArray
+  let S : Tree.Sys := { S0 with sides := fun e => sidesArr.getD e (none, none) }
+  let variant ← str (← field j "variant")
+  let signReal ← match fieldOpt j "sign_real" with | some s => ints s | none => pure []
+  let phi : (Nat → Int) → Nat → Int ← match variant with
+    | "new" => pure (fun u p => flux u (S.pdarts p))
+    | "old" => pure (fun u p => fluxOld signReal u (S.pdarts p))
+    | _ => throw "bad-variant"
+  let target ← ints (← field j "target")
+  let guess ← ints (← field j "guess")
+  if target.length != S.F then throw "target-length"
+  if guess.length != L.E then throw "guess-length"
+  let steps ← listOf parseStep (← field j "steps")
+  let tf : Nat → Int := fun p => Int.fdiv (uOf target p) (phi (uOf guess) p)
+  let todo := Solver.negs S.F tf
+  let s1 := Solver.adjacentPass S (List.range L.E) { bonds := uOf guess, toFlip := tf }
+  let idx := Solver.negs S.F s1.toFlip
+  let pairingOK := Solver.pairingOK idx (steps.map fun t => (t.1, t.2.1))
+  let chains := steps.map fun t =>
+    Solver.chainOK S t.2.2.1 t.2.2.2 && t.2.2.1.head? == some t.2.1 && t.2.2.1.getLast? == some t.1
+      && t.2.2.2.eraseDups.length == t.2.2.2.length
+  let r := Solver.isolatedPass s1 (steps.map fun t => (t.1, t.2.1, t.2.2.2))
+  pure (Json.mkObj [("bonds", jints ((List.range L.E).map r.bonds)),
+                    ("after_adjacent", jints ((List.range L.E).map s1.bonds)),
+                    ("to_flip", jints ((List.range S.F).map r.toFlip)),
+                    ("fluxes", jints ((List.range S.F).map (phi r.bonds))),
+                    ("todo", jnat todo.length), ("isolated", jnats idx),
+                    ("pairing_ok", Json.bool pairingOK), ("chains_ok", Json.arr (chains.map Json.bool).toArray)])
+
 def dispatch (op : String) (j : Json) : Except String Json :=
   match op with
   | "plaquettes" => opPlaquettes j
@@ -152,6 +194,7 @@ def dispatch (op : String) (j : Json) : Except String Json :=
   | "fluxes" => opFluxes j
   | "cnf" => opCnf j
   | "tree" => opTree j
+  | "solve" => opSolve j
   | _ => throw "bad-op"
 
 def handle (line : String) : String :=
